@@ -11,6 +11,7 @@ import Driver.BlockOps
 import Driver.NJOps
 import Driver.AnnOps
 import Driver.ImgOps
+import Driver.IdxOps
 /-
   Line-protocol driver: one operation per input line, one canonical result line per operation.
   Imports Model only (core Lean), so it links as a `lean_exe`.
@@ -62,6 +63,9 @@ def step (st : St) (line : String) : St × String :=
   | some (a, r) => ({ st with ann := a }, r)
   | none =>
   match imgOps w with
+  | some r => (st, r)
+  | none =>
+  match idxOps w with
   | some r => (st, r)
   | none => (st, "bad-op")
 
